@@ -26,6 +26,9 @@ FLOORS = {"quick": {"steps": 100000, "sleeps": 20000, "early_sleeps": 3000, "lat
                        "never_ahead_checks": 2000000, "strict_errors_expected": 6000, "strict_boundary_exact_pass": 1000,
                        "strict_checks": 800000, "syncs": 20000, "nonstrict_late_steps": 60000, "tapes_compared": 40000}}
 KEYS = tuple(FLOORS["quick"].keys()) + ("continued_after_strict_error", "huge_int_clock_cases", "steps_interrupted_in_sleep")
+# floors for the situations added with the later rounds of seeded changes (evidence that they were really exercised)
+FLOORS["quick"].update({'steps_interrupted_in_sleep': 15000})
+FLOORS["thorough"].update({'steps_interrupted_in_sleep': 75000})
 PROFILE = {"weights": {"timeout": 6, "zero": 1, "wait": 2, "succeed": 2, "fail": 0.3, "spawn": 1.5, "join": 1.5,
                        "interrupt": 1, "cb": 0.5, "cond": 1},
            "max_top": 4, "max_child_scripts": 2, "min_ev": 0, "max_ev": 2, "p_exact": 1.0, "p_raise": 0.05,
